@@ -127,7 +127,7 @@ impl Property for C02 {
             1 => (true, true),
             _ => (false, false),
         };
-        let cfg = GenCfg { shadowing: shadow, scope_stress: stress, ..GenCfg::strict() };
+        let cfg = GenCfg { shadowing: shadow, scope_stress: stress, at_name_clash: tape.chance(1, 8), ..GenCfg::strict() };
         let (prog, labels) = Gen::new(tape, cfg).program();
         let rendered = if tape.chance(1, 3) { render_trivia(&prog, tape) } else { render_plain(&prog) };
         let sources = to_sources(&rendered);
